@@ -172,6 +172,109 @@ func c12Answers(c *core.Ctx, w c12Witness, content string, reqs []*gen.Req) (out
 	return out, ok
 }
 
+// c12CheckLine runs the per-line monitors: every constructor, the
+// nil/rule/error trichotomy, text and list id, and every obtained rule
+// through Match, priority and selection.  Parsed lines are appended to valid,
+// inert ones to noise.
+func c12CheckLine(c *core.Ctx, line string, id int, valid, noise *[]string) {
+	w := c12Witness{Line: line}
+	c.Eval(1)
+
+	var r rules.Rule
+	var err error
+	w.What = "NewRule"
+	if c.Guard("NewRule", nil, w, func() { r, err = rules.NewRule(line, id) }) {
+		return
+	}
+	switch {
+	case r == nil && err == nil:
+		t := strings.TrimSpace(line)
+		if t != "" && t[0] != '!' && t[0] != '#' {
+			c.Violation("non-comment-yields-nothing", nil, w, "NewRule(%q) returned neither a rule nor an error", line)
+		}
+		*noise = append(*noise, line)
+		c.Event("lines_blank_or_comment", 1)
+	case err != nil:
+		// (NewRule may return a typed nil pointer next to the error; callers
+		// are expected to look at the error first.)
+		r = nil
+		*noise = append(*noise, line)
+		c.Event("lines_rejected", 1)
+	default:
+		c.Event("lines_parsed", 1)
+		c.NonTrivial(core.Hash64(line))
+		if r.Text() != strings.TrimSpace(line) {
+			c.Violation("text-differs", nil, w, "NewRule(%q).Text() = %q, expected the trimmed line", line, r.Text())
+		}
+		if r.GetFilterListID() != id {
+			c.Violation("list-id-differs", nil, w, "NewRule(%q, %d).GetFilterListID() = %d", line, id, r.GetFilterListID())
+		}
+		if !strings.ContainsAny(line, "\x00") {
+			*valid = append(*valid, line)
+		}
+	}
+
+	// Each constructor on the raw line.
+	var nr *rules.NetworkRule
+	w.What = "NewNetworkRule"
+	c.Guard("NewNetworkRule", nil, w, func() { nr, _ = rules.NewNetworkRule(strings.TrimSpace(line), id) })
+	w.What = "NewHostRule"
+	c.Guard("NewHostRule", nil, w, func() { _, _ = rules.NewHostRule(strings.TrimSpace(line), id) })
+	w.What = "NewCosmeticRule"
+	c.Guard("NewCosmeticRule", nil, w, func() { _, _ = rules.NewCosmeticRule(strings.TrimSpace(line), id) })
+	if x, ok := r.(*rules.NetworkRule); ok && nr == nil {
+		nr = x
+	}
+
+	reqs := c12Requests(c, line)
+	if nr != nil {
+		for _, q := range reqs {
+			w2 := c12Witness{Line: line, What: "NetworkRule.Match", Req: q}
+			c.Guard("NetworkRule.Match", nil, w2, func() {
+				req := q.Build()
+				a := nr.Match(req)
+				b := nr.Match(req) // second call: compiled / invalid flag path
+				if a != b {
+					panic("Match is not stable across two calls")
+				}
+			})
+		}
+		w.What = "IsHigherPriority/NewMatchingResult/GetDNSBasicRule"
+		c.Guard("priority-and-selection", nil, w, func() {
+			for i := 0; i < 6; i++ {
+				o := c07Pool[c.Rng.Intn(len(c07Pool))].Rule
+				_ = nr.IsHigherPriority(o)
+				_ = o.IsHigherPriority(nr)
+				mr := rules.NewMatchingResult([]*rules.NetworkRule{o, nr}, []*rules.NetworkRule{nr, o})
+				_ = mr.GetBasicResult()
+				_ = mr.GetCosmeticOption()
+				_ = rules.GetDNSBasicRule([]*rules.NetworkRule{nr, o})
+			}
+			res := &urlfilter.DNSResult{NetworkRules: []*rules.NetworkRule{nr, nr}}
+			_ = res.DNSRewrites()
+		})
+	}
+	switch v := r.(type) {
+	case *rules.HostRule:
+		c.Guard("HostRule.Match", nil, w, func() { _ = v.Match("a.com"); _ = v.Match("") })
+	case *rules.CosmeticRule:
+		c.Guard("CosmeticRule.Match", nil, w, func() { _ = v.Match("a.com"); _ = v.Match(""); _ = v.Match("sub.example.org") })
+	}
+}
+
+// FuzzLineC12 is the entry point of the native fuzz target.
+func FuzzLineC12(c *core.Ctx, line string) {
+	var valid, noise []string
+	c12CheckLine(c, line, 1, &valid, &noise)
+	reqs := c12Requests(c, line)
+	c12Answers(c, c12Witness{Lines: []string{line}, What: "single-line list"}, line+"\n", reqs)
+}
+
+// FuzzValueC10 is the entry point of the native fuzz target.
+func FuzzValueC10(c *core.Ctx, value string) {
+	c10Check(c, c10Case{Value: value, Note: "fuzz"})
+}
+
 func c12Run(c *core.Ctx, idx int) {
 	c12LoadReal(c.Env)
 	id := []int{1, 0, -5, 1 << 30}[c.Rng.Intn(4)]
@@ -180,89 +283,7 @@ func c12Run(c *core.Ctx, idx int) {
 	for k := 0; k < 24; k++ {
 		line := c12Line(c, true)
 		batch = append(batch, line)
-		w := c12Witness{Line: line}
-		c.Eval(1)
-
-		var r rules.Rule
-		var err error
-		w.What = "NewRule"
-		if c.Guard("NewRule", nil, w, func() { r, err = rules.NewRule(line, id) }) {
-			continue
-		}
-		switch {
-		case r == nil && err == nil:
-			t := strings.TrimSpace(line)
-			if t != "" && t[0] != '!' && t[0] != '#' {
-				c.Violation("non-comment-yields-nothing", nil, w, "NewRule(%q) returned neither a rule nor an error", line)
-			}
-			noise = append(noise, line)
-			c.Event("lines_blank_or_comment", 1)
-		case err != nil:
-			// (NewRule may return a typed nil pointer next to the error; callers
-			// are expected to look at the error first.)
-			r = nil
-			noise = append(noise, line)
-			c.Event("lines_rejected", 1)
-		default:
-			c.Event("lines_parsed", 1)
-			c.NonTrivial(core.Hash64(line))
-			if r.Text() != strings.TrimSpace(line) {
-				c.Violation("text-differs", nil, w, "NewRule(%q).Text() = %q, expected the trimmed line", line, r.Text())
-			}
-			if r.GetFilterListID() != id {
-				c.Violation("list-id-differs", nil, w, "NewRule(%q, %d).GetFilterListID() = %d", line, id, r.GetFilterListID())
-			}
-			if !strings.ContainsAny(line, "\x00") {
-				valid = append(valid, line)
-			}
-		}
-
-		// Each constructor on the raw line.
-		var nr *rules.NetworkRule
-		w.What = "NewNetworkRule"
-		c.Guard("NewNetworkRule", nil, w, func() { nr, _ = rules.NewNetworkRule(strings.TrimSpace(line), id) })
-		w.What = "NewHostRule"
-		c.Guard("NewHostRule", nil, w, func() { _, _ = rules.NewHostRule(strings.TrimSpace(line), id) })
-		w.What = "NewCosmeticRule"
-		c.Guard("NewCosmeticRule", nil, w, func() { _, _ = rules.NewCosmeticRule(strings.TrimSpace(line), id) })
-		if x, ok := r.(*rules.NetworkRule); ok && nr == nil {
-			nr = x
-		}
-
-		reqs := c12Requests(c, line)
-		if nr != nil {
-			for _, q := range reqs {
-				w2 := c12Witness{Line: line, What: "NetworkRule.Match", Req: q}
-				c.Guard("NetworkRule.Match", nil, w2, func() {
-					req := q.Build()
-					a := nr.Match(req)
-					b := nr.Match(req) // second call: compiled / invalid flag path
-					if a != b {
-						panic("Match is not stable across two calls")
-					}
-				})
-			}
-			w.What = "IsHigherPriority/NewMatchingResult/GetDNSBasicRule"
-			c.Guard("priority-and-selection", nil, w, func() {
-				for i := 0; i < 6; i++ {
-					o := c07Pool[c.Rng.Intn(len(c07Pool))].Rule
-					_ = nr.IsHigherPriority(o)
-					_ = o.IsHigherPriority(nr)
-					mr := rules.NewMatchingResult([]*rules.NetworkRule{o, nr}, []*rules.NetworkRule{nr, o})
-					_ = mr.GetBasicResult()
-					_ = mr.GetCosmeticOption()
-					_ = rules.GetDNSBasicRule([]*rules.NetworkRule{nr, o})
-				}
-				res := &urlfilter.DNSResult{NetworkRules: []*rules.NetworkRule{nr, nr}}
-				_ = res.DNSRewrites()
-			})
-		}
-		switch v := r.(type) {
-		case *rules.HostRule:
-			c.Guard("HostRule.Match", nil, w, func() { _ = v.Match("a.com"); _ = v.Match("") })
-		case *rules.CosmeticRule:
-			c.Guard("CosmeticRule.Match", nil, w, func() { _ = v.Match("a.com"); _ = v.Match(""); _ = v.Match("sub.example.org") })
-		}
+		c12CheckLine(c, line, id, &valid, &noise)
 	}
 
 	// Lines that are comments by the documented syntax ('!' lines, and '#'
